@@ -18,7 +18,7 @@ ID = "C12"
 RULE = (
     "all ordered pairs of grids {mixed 3..6-gon patch, cube, tetrahedron (n_node = n_face), single triangle (n_node = n_edge, one face), pyramid whose face centres "
     "come from the source and are displaced from the corner mean} x data on {nodes, edges, faces} x remap_to {nodes, edge centers, face centers} x coord_type {spherical, "
-    "cartesian} x data {every unit impulse, identity, ones, generic; leading dims (), (2), (2,3)}; IDW additionally x k in {2, 3, n} x power in {1, 2, 5}. "
+    "cartesian} x data {every unit impulse, identity, ones, generic, generic int64, constant int64; leading dims (), (2), (2,3)}; IDW additionally x k in {2, 3, n} x power in {1, 2, 5}. "
     "plus histories: all 6 orders of remapping a node-, an edge- and a face-centred variable between the same two Grid objects (NN and IDW). non-trivial = pair of different grids or a history; distinct = (source, destination, kind, remap_to, coord_type, k, power)"
 )
 ASSUMPTIONS = [
@@ -203,14 +203,18 @@ def run_case(case):
                                 bad("c12:idw:weights-increase-with-distance", "k=%d power=%d destination %d: source at %.6f has weight %.4g, farther source at %.6f has %.4g" % (k, power, j, dd[a], ww[a], dd[b], ww[b]), ex)
                                 break
                     # constants and leading dims
-                    for lead in ((), (2, 3)):
+                    for lead, dkind in (((), "float"), ((2, 3), "float"), ((), "int"), ((2,), "const-int")):
                         data = build.lead_expand(gen, lead)
+                        if dkind == "int":
+                            data = np.rint(data * 9).astype(np.int64)  # integer-typed variables (counts, category indices): still a convex combination
+                        elif dkind == "const-int":
+                            data = np.full(data.shape, -5, dtype=np.int64)  # a constant field is reproduced whatever its dtype
                         try:
                             o = build.uxda(gs, data, elem, lead, name="v").remap.inverse_distance_weighted(gd, remap_to=remap_to, coord_type=coord, power=power, k=k)
                             ov = np.asarray(o.values, dtype=float)
                             want = data @ W.T
                             if ov.shape != want.shape or not np.allclose(ov, want, rtol=0, atol=1e-9):
-                                bad("c12:idw:not-linear-in-data", "k=%d power=%d lead=%s: result is not the weight matrix applied to the data" % (k, power, lead), ex)
+                                bad("c12:idw:not-linear-in-data" + ("" if dkind == "float" else ":" + dkind), "k=%d power=%d lead=%s %s data: result is not the weight matrix applied to the data (max deviation %s)" % (k, power, lead, dkind, float(np.max(np.abs(ov - want))) if ov.shape == want.shape else "shape"), ex)
                             want_dims = tuple("d%d" % i for i in range(len(lead))) + (DEST[remap_to],)
                             if tuple(o.dims) != want_dims or o.uxgrid is not gd:
                                 bad("c12:idw:dims-or-grid", "dims %s expected %s" % (o.dims, want_dims), ex)
